@@ -257,7 +257,7 @@ def main():
             pr = dict(theorems=[], discharged=0, axioms=[], ok=True, log="", secs=0.0)
         else:
             pr = check_props(pid)
-        chk = run_coqchk(pid) if (tier == "thorough" and pr["ok"] and pr["theorems"]) else None
+        chk = run_coqchk(pid) if (tier == "thorough" and pr["ok"] and pr["theorems"] and not os.environ.get("VERIF_DEV_NO_COQCHK")) else None
         if not alt:
             build_driver()
         rc, hout = run_harness(pid, tier, seed, race=rule.get("race", False) and True)
